@@ -339,20 +339,27 @@ class DefaultOperatorResolver(OperatorResolver):
             )
 
         def power(arg: OrderedSet[Term], power: OrderedSet[Term]) -> OrderedSet[Term]:
-            power_term = next(iter(power))
-            if (
-                not len(power_term.factors) == 1
-                or not power_term.factors[0].token
-                or power_term.factors[0].token.kind is not Token.Kind.VALUE
-                or not isinstance(ast.literal_eval(power_term.factors[0].expr), int)
-            ):
+            # The exponent must be exactly one term consisting of exactly one
+            # literal factor that evaluates to a positive integer.
+            power_token = None
+            exponent = None
+            if len(power) == 1:
+                power_term = next(iter(power))
+                if len(power_term.factors) == 1:
+                    power_token = power_term.factors[0].token
+            if power_token and power_token.kind is Token.Kind.VALUE:
+                try:
+                    exponent = ast.literal_eval(power_token.token)
+                except (ValueError, SyntaxError):
+                    exponent = None
+            if not isinstance(exponent, int) or exponent < 1:
                 raise exc_for_token(
-                    power_term.factors[0].token or Token(),
+                    power_token or Token(),
                     "The right-hand argument of `**` must be a positive integer.",
                 )
             return OrderedSet(
                 functools.reduce(lambda x, y: x * y, term)
-                for term in itertools.product(*[arg] * int(power_term.factors[0].expr))
+                for term in itertools.product(*[arg] * exponent)
             )
 
         def multistage_formula(
